@@ -62,6 +62,9 @@ def build_shape(w, t):
     if k in ("forall", "exists"):
         vs = [w.symbol(n, sc._sort(w, s)) for n, s in t[1]]
         return w.app("ForAll" if k == "forall" else "Exists", vs, build_shape(w, t[2]))
+    if k == "dict":
+        # ('dict', (key shape, value shape), ...)
+        return dict((build_shape(w, kv[0]), build_shape(w, kv[1])) for kv in t[1:])
     if k == "fun":
         # ('fun', name, ret_sort, (param sorts), args...)
         f = w.symbol(t[1], ("FUN", t[2], tuple(t[3])))
